@@ -18,7 +18,7 @@ EP = "lcm.entry_point"
 
 def _closures(prog, factory, name):
     fr = prog.frame(factory)
-    cids = fr.closures.get(name, [])
+    cids = sorted(c for cs in fr.closures.values() for c in cs)  # all nested defs, whatever their name
     out = []
     for cid in cids:
         info, _snap, conds = prog.closures[cid]
